@@ -6,6 +6,7 @@ syntax/parser.go by the regenerated `Generated.Escape` facts and by corresponden
 import RegexVerif.Lemmas.Escape
 import RegexVerif.Lemmas.EscapeParse
 import RegexVerif.Lemmas.EscapeFull
+import RegexVerif.Lemmas.EscapeSpec
 
 namespace RegexVerif.Props.C19
 open RegexVerif RegexVerif.Escape RegexVerif.Lemmas.Escape
@@ -267,11 +268,11 @@ theorem escape_parses_as_literal_full (isPrint : Nat → Bool) (orc : Parser.Ora
     ∃ c, Parser.parse { pat := escape isPrint s, opts := opts, mco := mco, orc := orc } =
         .ok { root := literalRoot opts c,
               tables := Parser.noGroupTables { pat := escape isPrint s, opts := opts, mco := mco, orc := orc } } ∧
-      spells c s ∧ c.t = .concatenate ∧
+      spells c s ∧ c.t = .concatenate ∧ c.o = opts ∧
       (Parser.noGroupTables { pat := escape isPrint s, opts := opts, mco := mco, orc := orc }).caps = [0] := by
   obtain ⟨ks, h1, h2⟩ := Parser.ef_parse { pat := escape isPrint s, opts := opts, mco := mco, orc := orc }
     isPrint hW hP s rfl hi
-  refine ⟨.mk .concatenate opts 0 [] none 0 0 (if opts.r then ks.reverse else ks), h1, Or.inr ⟨rfl, ?_⟩, rfl,
+  refine ⟨.mk .concatenate opts 0 [] none 0 0 (if opts.r then ks.reverse else ks), h1, Or.inr ⟨rfl, ?_⟩, rfl, rfl,
     (Parser.noGroupTables_caps _).1⟩
   simp only [Parser.RNode.o, Parser.RNode.kids]
   by_cases hr : opts.r = true <;> simp [hr, h2]
@@ -296,6 +297,90 @@ theorem parseLit_and_parse_agree_on_escape (isPrint : Nat → Bool) (orc : Parse
   obtain ⟨c, h1, h2, _⟩ := escape_parses_as_literal_full isPrint orc hW hP (fullOpts o m n sl r) rfl mco s
   exact ⟨c, _, h1, rfl, h2⟩
 
+
+/-! #### from the tree to the specification -/
+
+/-- the specification pattern the reducer slice assigns to a raw tree read left to right
+    (`RewriteDecisions.toPat false ∘ Reduce.toR ∘ Reduce.ofRaw`: the denotation `Props/C01.lean` part (ii) and the
+    `RewriteDecisions` soundness theorems speak about) -/
+def rawDenotation (root : Parser.RNode) : Spec.Pat :=
+  RewriteDecisions.toPat false (Reduce.toR (Reduce.ofRaw root))
+
+/-- **A literal tree matches exactly its text** (specification level, left to right).  If the Concatenate `c`
+    spells `w` (and is not RightToLeft), then the denotation of the tree `literalRoot opts c`, started in any state
+    `st` on any text, has exactly one success when the text continues with `w` at `st.pos` — it ends right after
+    `w` and records group 0 over it — and no success otherwise. -/
+theorem lit_tree_matches_exactly (e : Spec.Env) (opts : Parser.Opts) (c : Parser.RNode) (w : List Nat)
+    (hs : spells c w) (hc : c.t = .concatenate) (hr : c.o.r = false) (st : Spec.St) :
+    Spec.m e (rawDenotation (literalRoot opts c)) false st =
+      if (e.text.drop st.pos).take w.length = w then
+        [{ pos := st.pos + w.length, caps := st.caps ++ [(0, st.pos, w.length)] }] else [] := by
+  obtain ⟨t, o, ch, str, set, m, n, kids⟩ := c
+  simp only [Parser.RNode.t] at hc
+  subst hc
+  have hk : Parser.kidsRunes kids = some w := by
+    rcases hs with h | ⟨_, h⟩
+    · cases set <;> cases kids <;> simp [Parser.leafRunes] at h
+    · simpa [Parser.RNode.o, Parser.RNode.kids, show o.r = false from hr] using h
+  exact Lemmas.EscapeSpec.m_litRoot e opts o ch str set m n kids w hk st
+
+/-- **C19, the chain Escape → parser → tree → specification** (left to right, no IgnoreCase): `Parse(Escape(s))`
+    succeeds and the specification pattern of its raw tree matches, from any position of any text, exactly the
+    occurrence of `s` at that position (one success, group 0 = that occurrence) and nothing else.
+    NOT included (not a Lean theorem anywhere in the framework, see `Props/C01.lean` (ii)): that the reducer
+    (`Reduce.reduceTree`, which turns this tree into the one the writer compiles) keeps the denotation; from the
+    reduced tree on, `compile_correct` (C01: One/Multi/Concatenate are tier 1) ties the program to `Spec.m`. -/
+theorem escape_matches_exactly (isPrint : Nat → Bool) (orc : Parser.Oracles)
+    (hW : ∀ c, Generated.metaChars.contains c = true → orc.isWord c = false)
+    (hP : ∀ c, 9 ≤ c → c ≤ 13 → isPrint c = false)
+    (opts : Parser.Opts) (hi : opts.i = false) (hr : opts.r = false) (mco : Bool) (s : List Nat) :
+    ∃ t, Parser.parse { pat := escape isPrint s, opts := opts, mco := mco, orc := orc } = .ok t ∧
+      ∀ (e : Spec.Env) (st : Spec.St), Spec.m e (rawDenotation t.root) false st =
+        if (e.text.drop st.pos).take s.length = s then
+          [{ pos := st.pos + s.length, caps := st.caps ++ [(0, st.pos, s.length)] }] else [] := by
+  obtain ⟨c, h1, h2, h3, h4, _⟩ := escape_parses_as_literal_full isPrint orc hW hP opts hi mco s
+  exact ⟨_, h1, fun e st => lit_tree_matches_exactly e opts c s h2 h3 (by rw [h4]; exact hr) st⟩
+
+/-- **Anchored at both ends, it matches the text `s` and nothing else**: the specification pattern of the tree of
+    `Escape s`, started at position 0 with no captures, has a success that ends at the end of the text if and only
+    if the text is `s`. -/
+theorem escape_anchored_matches_only_s (isPrint : Nat → Bool) (orc : Parser.Oracles)
+    (hW : ∀ c, Generated.metaChars.contains c = true → orc.isWord c = false)
+    (hP : ∀ c, 9 ≤ c → c ≤ 13 → isPrint c = false)
+    (opts : Parser.Opts) (hi : opts.i = false) (hr : opts.r = false) (mco : Bool) (s : List Nat) :
+    ∃ t, Parser.parse { pat := escape isPrint s, opts := opts, mco := mco, orc := orc } = .ok t ∧
+      ∀ (e : Spec.Env), (∃ st' ∈ Spec.m e (rawDenotation t.root) false { pos := 0, caps := [] },
+        st'.pos = e.text.length) ↔ e.text = s := by
+  obtain ⟨t, h1, h2⟩ := escape_matches_exactly isPrint orc hW hP opts hi hr mco s
+  refine ⟨t, h1, fun e => ?_⟩
+  rw [h2]
+  simp only [List.drop_zero, Nat.zero_add]
+  constructor
+  · rintro ⟨st', hmem, hpos⟩
+    split at hmem
+    · rename_i htake
+      simp at hmem
+      subst hmem
+      simp only at hpos
+      rw [← htake, hpos, List.take_length]
+    · simp at hmem
+  · intro h
+    rw [h]
+    simp
+
+/-- non-vacuity of `lit_tree_matches_exactly`: the tree of `a\.b`; on the text `xa.b` it matches at position 1
+    and not at position 0 -/
+example : spells (.mk .concatenate {} 0 [] none 0 0
+    [.mk .one {} 97 [] none 0 0 [], .mk .one {} 46 [] none 0 0 [], .mk .one {} 98 [] none 0 0 []]) [97, 46, 98] := by
+  decide
+example : Spec.m { text := [120, 97, 46, 98], textstart := 0, named := [], word := [], fold := [] }
+    (rawDenotation (literalRoot {} (.mk .concatenate {} 0 [] none 0 0
+      [.mk .one {} 97 [] none 0 0 [], .mk .multi {} 0 [46, 98] none 0 0 []]))) false { pos := 1, caps := [] } =
+    [{ pos := 4, caps := [(0, 1, 3)] }] := by decide +kernel
+example : Spec.m { text := [120, 97, 46, 98], textstart := 0, named := [], word := [], fold := [] }
+    (rawDenotation (literalRoot {} (.mk .concatenate {} 0 [] none 0 0
+      [.mk .one {} 97 [] none 0 0 [], .mk .multi {} 0 [46, 98] none 0 0 []]))) false { pos := 0, caps := [] } = [] := by
+  decide +kernel
 
 /-! #### non-vacuity and sensitivity on the full model
 
